@@ -265,14 +265,18 @@ def add_virtual(rng, case, n_virtual=None, n_zero_edges=None, order=0):
     nz = n_zero_edges if n_zero_edges is not None else rng.choice([0, 0, 1, 2])
     nxt = max(real) + 1
     virt = []
+    same_name = rng.random() < 0.4          # several fragment-less nodes may carry the same name
+    faulty = rng.randrange(nv) if order else None   # fault variant: exactly one of them has a real edge
     for i in range(nv):
         v = nxt
         nxt += 1
-        base.add_node(v, fragname='V%d' % i)
+        base.add_node(v, fragname='V0' if same_name else 'V%d' % i)
         targets = rng.sample(real + virt, rng.randint(1, min(3, len(real) + len(virt))))
         for j, t in enumerate(targets):
-            # fault variant (order >= 1): one real edge is enough, the others may be virtual edges
-            base.add_edge(v, t, order=order if (j == 0 or rng.random() < 0.5) else 0)
+            o = 0
+            if order and i == faulty and (j == 0 or rng.random() < 0.5):
+                o = order        # one real edge is enough, the others may be virtual edges
+            base.add_edge(v, t, order=o)
         virt.append(v)
     for _ in range(nz):
         if len(real) >= 2:
@@ -292,6 +296,8 @@ def add_virtual(rng, case, n_virtual=None, n_zero_edges=None, order=0):
         feats.add('virtual_middle')
     if nv > 1:
         feats.add('several_virtual')
+        if same_name:
+            feats.add('virtual_nodes_share_a_name')
     if nz:
         feats.add('zero_edge_between_real')
     if any(base.degree(v) > 1 for v in virt):
@@ -310,22 +316,53 @@ def add_virtual(rng, case, n_virtual=None, n_zero_edges=None, order=0):
 # ---------------------------------------------------------------------------------------------
 # multi-level hierarchies
 
-def group_levels(rng, base, nlevels):
+def group_levels(rng, base, nlevels, p_share=0.0):
     """base: nx graph, nodes named by 'fragname', edge 'order'.  Group bottom-up into nlevels
-    intermediate levels.  -> (top graph, [fragment blocks top-down as {name: text}]) or None"""
+    intermediate levels; with p_share an inter-group connection is made by SHARING one end node
+    (squash operator at a coarse level) instead of a descriptor pair.
+    -> (top graph, [fragment blocks top-down as {name: text}], used_sharing) or None"""
     cur = base
     blocks = []
     labels = M.label_pool(rng)
+    shared_levels = 0
     for lvl in range(1, nlevels + 1):
         if len(cur) < 1:
             return None
         k = rng.randint(1, max(1, len(cur) - (1 if len(cur) > 1 else 0)))
         part = M.partition(rng, cur, k=k)
         ngroups = max(part.values()) + 1
+        work = cur.copy()
+        wpart = dict(part)
         desc = {}
         between = collections.Counter()
-        for a, b, d in cur.edges(data=True):
-            if part[a] != part[b]:
+        nxt_key = max(work.nodes) + 1
+        used_share = False
+        cloned_from = set()
+        for a, b, d in list(cur.edges(data=True)):
+            if part[a] == part[b] or not work.has_edge(a, b):
+                continue
+            if p_share and rng.random() < p_share and a not in cloned_from and b not in cloned_from:
+                # share node b with the group of a: a clone of b joins a's group, bonded to all of b's
+                # neighbours there, and carries the squash pair with b
+                if rng.random() < 0.5:
+                    a, b = b, a
+                P = wpart[a]
+                nbrs = [x for x in work[b] if wpart[x] == P and x in cur]
+                clone = nxt_key
+                nxt_key += 1
+                work.add_node(clone, **dict(cur.nodes[b]))
+                wpart[clone] = P
+                for x in nbrs:
+                    work.add_edge(x, clone, order=work.edges[x, b]['order'])
+                    work.remove_edge(x, b)
+                lab = next(labels)
+                desc.setdefault(clone, []).append(('!', lab, 1))
+                desc.setdefault(b, []).append(('!', lab, 1))
+                between[frozenset((P, wpart[b]))] += 1
+                cloned_from.add(b)
+                used_share = True
+        for a, b, d in work.edges(data=True):
+            if wpart[a] != wpart[b]:
                 lab = next(labels)
                 kind = rng.choice(['$', '><'])
                 if kind == '$':
@@ -335,15 +372,17 @@ def group_levels(rng, base, nlevels):
                 o = d['order']
                 desc.setdefault(a, []).append((ka, lab, o))
                 desc.setdefault(b, []).append((kb, lab, o))
-                between[frozenset((part[a], part[b]))] += 1
+                between[frozenset((wpart[a], wpart[b]))] += 1
         if any(v > 4 for v in between.values()):
             return None
         for n in desc:
             rng.shuffle(desc[n])
         frs = {}
         for gi in range(ngroups):
-            mem = [n for n in cur if part[n] == gi]
-            text, _pre = M.render_coarse_fragment(rng, cur, mem, desc, name_attr='fragname')
+            mem = [n for n in work if wpart[n] == gi]
+            if not nx.is_connected(work.subgraph(mem)):
+                return None
+            text, _pre = M.render_coarse_fragment(rng, work, mem, desc, name_attr='fragname')
             frs['L%dG%d' % (lvl, gi)] = text
         nxt = nx.Graph()
         order = list(range(ngroups))
@@ -353,9 +392,12 @@ def group_levels(rng, base, nlevels):
         for key, v in between.items():
             a, b = tuple(key)
             nxt.add_edge(a, b, order=v)
+        if not nx.is_connected(nxt):
+            return None
         blocks.insert(0, frs)
         cur = nxt
-    return cur, blocks
+        shared_levels += used_share
+    return cur, blocks, shared_levels
 
 
 def block_text(rng, frs):
@@ -365,9 +407,17 @@ def block_text(rng, frs):
 
 
 def random_multilevel_case(rng, max_heavy, nlevels=None, coarse_last=False):
+    import re
     nlevels = nlevels or rng.randint(1, 3)
+    bottom_shared = False
     if coarse_last:
         base_case = random_coarse_cut_case(rng, rng.randint(3, 14))
+    elif rng.random() < 0.25:
+        sc = random_shared_case(rng, max_heavy, ctor='string')
+        base_case = None
+        if sc is not None:
+            base_case = dict(sc['shared'], truth=sc['truth'], features=sc['features'], nfrag=sc['nfrag'], nheavy=sc['nheavy'], kind='shared')
+            bottom_shared = True
     else:
         base_case = random_cut_case(rng, max_heavy, ctor='string', max_parts=7)
     if base_case is None or base_case['nfrag'] < 2:
@@ -377,16 +427,29 @@ def random_multilevel_case(rng, max_heavy, nlevels=None, coarse_last=False):
         base.add_node(n, fragname=name)
     for a, b, o in base_case['base_graph']['edges']:
         base.add_edge(a, b, order=o)
-    res = group_levels(rng, base, nlevels)
+    res = group_levels(rng, base, nlevels, p_share=rng.choice([0.0, 0.0, 0.4]))
     if res is None:
         return None
-    top, blocks = res
+    top, blocks, shared_levels = res
     ast, pre = M.base_to_ast(rng, top)
     multi = G.to_string(ast) + '.' + '.'.join(block_text(rng, b) for b in blocks) + '.' + base_case['frag_string']
+    feats = set(base_case['features']) | {'levels_%d' % (nlevels + 1), 'coarse_last' if coarse_last else 'atomistic_last'}
+    if shared_levels:
+        feats.add('squash_at_coarse_level')
+    if shared_levels + bottom_shared >= 2:
+        feats.add('squash_at_two_levels')
+    # the same fragment name may be defined at several levels with different content (a bead named like its parent)
+    if rng.random() < 0.35:
+        lower = re.findall(r'#(F\d+)=', base_case['frag_string'])
+        upper = [name for b in blocks for name in b]
+        rng.shuffle(upper)
+        rng.shuffle(lower)
+        for up, low in zip(upper[:rng.randint(1, 2)], lower):
+            multi = re.sub(r'\b%s\b' % up, low, multi)
+            feats.add('name_reused_across_levels')
     out = dict(base_case)
     out.update(kind='multilevel', multi_string=multi, nlevels=nlevels + 1, coarse_last=coarse_last,
-               two_level=base_case['base_string'] + '.' + base_case['frag_string'],
-               features=sorted(set(base_case['features']) | {'levels_%d' % (nlevels + 1), 'coarse_last' if coarse_last else 'atomistic_last'}))
+               two_level=base_case['base_string'] + '.' + base_case['frag_string'], features=sorted(feats))
     return out
 
 
